@@ -34,7 +34,7 @@ def candidate_edits(obj, case, rng):
                 if isinstance(l, str) and l != obj.str_default: edits.append((f, 'replace', l, 'renamed_%s' % l))
         if order.contains(obj.str_nan) and order.get_group(obj.str_nan) == obj.str_nan and leaders:
             edits.append((f, 'group', float('nan'), rng.choice(leaders)))
-            if f not in obj.quantitative_features: edits.append((f, 'replace', float('nan'), rng.choice([l for l in leaders if isinstance(l, str)] or leaders)))     # the other way of attaching the missing values to a modality
+            if not ordered: edits.append((f, 'replace', float('nan'), rng.choice([l for l in leaders if isinstance(l, str)] or leaders)))          # (categorical features only: on an ordered feature this moves the modality to the place of the missing values)     # the other way of attaching the missing values to a modality
     return edits
 
 
